@@ -28,7 +28,7 @@ ASSUMPTIONS = ['fetch margins (fragment_size) are at least the longest simulated
                'per-run molecule identifiers (mi), the per-job index (ix) and the @PG header may differ',
                'worker schedules are sampled (distinct completion orders observed are counted)']
 MIN_NONTRIVIAL = {'quick': 40, 'thorough': 2500}
-REQUIRED_MONITORS = ['run:serial', 'run:restricted_to_one_contig', 'lib:contig_with_placed_unmapped_pairs_only', 'run:contig_per_process', 'run:tiling_pool', 'run:tiling_nopool', 'records:compared', 'jobs:observed',
+REQUIRED_MONITORS = ['run:tiling_with_jobs_smaller_than_tiles', 'run:serial', 'run:restricted_to_one_contig', 'lib:contig_with_placed_unmapped_pairs_only', 'run:contig_per_process', 'run:tiling_pool', 'run:tiling_nopool', 'records:compared', 'jobs:observed',
                      'ownership:records_checked', 'edge:sites_on_bin_edges', 'lib:fragments_up_to_900bp', 'lib:hard_clipped_fragments', 'run:tiling_with_job_bed_file', 'run:one_contig_skipped', 'lib:empty_contig_between_populated_ones', 'lib:contig_name_with_separator_characters', 'edge:molecules_on_the_first_or_last_bases_of_a_contig', 'history:earlier_library_at_the_same_path_tagged_in_this_process']
 SHARD_TIMEOUT = {'quick': 900, 'thorough': 7200}
 IGNORE_TAGS = {'mi', 'ix'}
@@ -295,6 +295,11 @@ def run_case(case):
             use_pool = (ti == 0)
             cfg = {'mode': 'tiling', 'bp_per_segment': seg, 'bp_per_job': r.choice([1, seg, 3 * seg, 50000]),
                    'fragment_size': r.choice([max_frag + 50, 1000, 5000]), 'use_pool': use_pool, 'workers': r.choice([1, 2, 4]), 'delay_seed': case['i'] + ti}
+            if (case['i'] + ti) % 4 == 2:
+                # jobs smaller than the tiles: a tile (a whole small contig, or the remainder tile at the end of a contig) is still waiting for
+                # its job to fill up when a tile arrives that is a job of its own
+                cfg['bp_per_job'] = rng(case['seed'], 'C08', 'small_jobs', case['i'], ti).choice([max(2, seg // 2), max(2, seg // 3), 3000, 5000, seg - 1])
+                acc.count('run:tiling_with_jobs_smaller_than_tiles')
             out_t = os.path.join(dd, f'tile{ti}', 't.bam')
             os.makedirs(os.path.dirname(out_t))
             ev = os.path.join(dd, f'evt{ti}.jsonl')
